@@ -262,6 +262,72 @@ impl<'a> G<'a> {
     }
 }
 
+impl<'a> G<'a> {
+    /// A scenario aimed at the stack's checkpoint bookkeeping: values below an outer checkpoint,
+    /// pushes inside it, an inner checkpoint that succeeds after popping through the outer line,
+    /// then a failure that makes the outer checkpoint rewind; followed by reads of the stack.
+    fn stack_scenario(&mut self) -> Op {
+        let mut v = vec![];
+        for _ in 0..1 + self.r.below(3) {
+            v.push(Op::new(K::StackPushLiteral(self.lit(true))));
+        }
+        let levels = 1 + self.r.below(3);
+        let mut body = self.stack_level(levels);
+        // the outer checkpointing combinator, made to fail at its end (mostly)
+        if self.r.chance(4, 5) {
+            body.push(Op::new(K::Fail));
+        } else {
+            body.push(self.leaf());
+        }
+        let outer = match self.r.below(4) {
+            0 | 1 => Op::new(K::Seq(body)),
+            2 => Op::new(K::RestoreOnErr(Box::new(Op::new(K::AndThen(body))))),
+            _ => Op::new(K::Look(self.r.chance(1, 2), Box::new(Op::new(K::AndThen(body))))),
+        };
+        v.push(if self.r.chance(1, 2) { Op::new(K::Opt(Box::new(outer))) } else { Op::new(K::OrElse(vec![outer, Op::new(K::Pass)])) });
+        for _ in 0..1 + self.r.below(2) {
+            v.push(match self.r.below(4) {
+                0 => Op::new(K::StackMatchPeekSlice(0, None, false)),
+                1 => Op::new(K::StackMatchPeek),
+                2 => Op::new(K::Opt(Box::new(Op::new(K::StackDrop)))),
+                _ => Op::new(K::StackMatchPeekSlice(-1, None, true)),
+            });
+        }
+        Op::new(K::AndThen(v))
+    }
+
+    /// Operations inside a checkpoint: pushes, then a nested checkpoint that pops through.
+    fn stack_level(&mut self, levels: usize) -> Vec<Op> {
+        let mut ops = vec![];
+        for _ in 0..self.r.below(3) {
+            ops.push(Op::new(K::StackPushLiteral(self.lit(true))));
+        }
+        let mut inner: Vec<Op> = (0..1 + self.r.below(4)).map(|_| Op::new(K::StackDrop)).collect();
+        if levels > 1 && self.r.chance(2, 3) {
+            let deeper = self.stack_level(levels - 1);
+            let at = self.r.below(inner.len() + 1);
+            let nested = match self.r.below(3) {
+                0 => Op::new(K::Seq(deeper)),
+                1 => Op::new(K::RestoreOnErr(Box::new(Op::new(K::AndThen(deeper))))),
+                _ => Op::new(K::Opt(Box::new(Op::new(K::Seq(deeper))))),
+            };
+            inner.insert(at, nested);
+        }
+        if self.r.chance(1, 3) {
+            inner.push(Op::new(K::StackPushLiteral(self.lit(true))));
+        }
+        // the inner checkpoint succeeds (its drops may fail on an empty stack: then it rewinds too)
+        ops.push(match self.r.below(3) {
+            0 | 1 => Op::new(K::Seq(inner)),
+            _ => Op::new(K::RestoreOnErr(Box::new(Op::new(K::AndThen(inner))))),
+        });
+        if self.r.chance(1, 3) {
+            ops.push(Op::new(K::StackPushLiteral(self.lit(true))));
+        }
+        ops
+    }
+}
+
 /// True when every `repeat` body is guaranteed to move on success (checked on replay
 /// programs, which may be hand-written; generated programs satisfy it by construction).
 pub fn repeats_are_guarded(op: &Op) -> bool {
@@ -290,6 +356,14 @@ pub fn gen_case(r: &mut Rng) -> (Op, String) {
     loop {
         let chars: Vec<char> = input.chars().collect();
         let mut g = G { r: &mut *r, chars, budget: MAX_NODES as i32 - 1, pushes: 0 };
+        if g.r.chance(1, 6) {
+            let mut op = g.stack_scenario();
+            let n = op.number();
+            if n <= MAX_NODES && op.depth() <= MAX_DEPTH {
+                return (op, input);
+            }
+            continue;
+        }
         // the root is always a combinator over a list, so that one-leaf programs are rare
         let k = match g.r.below(4) {
             0 => K::Seq(g.list(1, 1)),
